@@ -114,6 +114,8 @@ DOCS = [
     "{{#invoke:m}}", "{{#invoke:nomod|f}}", "{{inv|z}}", "{{deep|k}}", "{{{arg|def}}}", "{{{arg}}}", "[[link|{{a}}]] [http://x {{a}}]",
     "<nowiki>{{a}}</nowiki>", "{{a|{{#invoke:m|f}}}}", "{{ {{a}} }}", "{{lc:ABC}}{{PAGENAME}}", "{{#tag:span|x}}",
     "{{subst:a}}{{safesubst:b|1}}", "{{#unknownfn:x}}", "{{a|b=c|1=d}}",
+    # documents that run into the depth limit (the "too deep recursion" branch must leave the path as it found it)
+    "{{#if:1|" * 60 + "X" + "}}" * 60, "{{a|" * 101 + "x" + "}}" * 101, "{{lc:" * 110 + "X" + "}}" * 110,
     "{{#invoke:m|ppbad}}", "{{#invoke:m|etbad}}", "{{#invoke:m|argbad|{{padleft:x|" + "9" * 5000 + "}}}}", "{{#invoke:m|f|{{padleft:x|" + "9" * 5000 + "}}}}",
 ]
 REDIRECTS = {"redir": "Template:a", "redir2": "Template:missing-target", "redirempty": "Template:empty"}
